@@ -518,7 +518,17 @@ func (m *Model) Predict(c Cmd) Pred {
 	}
 	switch c.Op {
 	case "init", "compact", "where", "quickstart":
-		return Pred{Class: MustOK, Alts: []*Model{m.Clone()}, ChangesNothing: true}
+		p := Pred{Class: MustOK, Alts: []*Model{m.Clone()}, ChangesNothing: true}
+		if c.Op == "compact" {
+			for _, it := range m.Items {
+				if len(it.Body) > 9*1024*1024 || len(it.Title) > 9*1024*1024 {
+					// compaction may merge such text into an event that no longer
+					// fits one line: it may then refuse (and change nothing)
+					p.Class, p.Why = Either, "the store holds text close to the size one event line can hold"
+				}
+			}
+		}
+		return p
 	case "list":
 		n := 0
 		if c.LAll && c.LReady {
@@ -1178,6 +1188,7 @@ func (p Pred) weakenIfOversized(c Cmd) Pred {
 		}
 	}
 	if n > 9*1024*1024 && p.Class == MustOK {
+		// (compaction of a store holding such text may be refused as well)
 		p.Class = Either
 		p.Why = "text close to or beyond the size one event line can hold"
 	}
